@@ -216,6 +216,12 @@ def check_vector(v):
             d = bnp.compute(mk().get_data())
             res[nm] = [[c, int(s), int(e)] + ([bool(x)] if hasattr(d, "value") else []) for c, s, e, *x in
                        zip(d.chromosome.tolist(), d.start.tolist(), d.stop.tolist(), *([d.value.tolist()] if hasattr(d, "value") else []))]
+        # arithmetic with the streamed array as the RIGHT operand of operators that do not commute
+        for nm, mk in (("(3 - pileup).get_data", lambda: 3 - iv().get_pileup()), ("(1 - (pileup - 1)).get_data", lambda: 1 - (iv().get_pileup() - 1)),
+                       ("(2 ** pileup).get_data", lambda: 2 ** iv().get_pileup())):
+            d = bnp.compute(mk().get_data())
+            res[nm] = [[c, int(s), int(e), int(x)] for c, s, e, x in zip(d.chromosome.tolist(), d.start.tolist(), d.stop.tolist(), d.value.tolist())]
+        res["(3 - pileup).sum"] = int(bnp.compute((3 - iv().get_pileup()).sum()))
         # merged intervals, with the first entry of every contig starting at 0 and the last one reaching the contig's end
         first = np.array([i == 0 or keys[i - 1] != keys[i] for i in range(n)])
         last = np.array([i == n - 1 or keys[i + 1] != keys[i] for i in range(n)])
